@@ -101,9 +101,13 @@ def r3(chk, loops):
         n += 1
         for kind in ("Decl",):
             arms = [a for a in lp.arms if kind in a.kinds]
-            ok = bool(arms) and all("continue" in X.ntext(a.node["body"]) or X.ntext(a.node["body"]) in ("{}", "()") for a in arms)
-            chk.instance("C13/R3", "%s skips Event::%s at document level" % (lp.label(), kind), lp.fn, loc_of(lp.sp), holds=ok,
-                         key="C13/R3 %s %s-not-skipped" % (lp.label(), kind))
+            # skipped *unconditionally*: the declaration's own content (version / encoding spelling / standalone) must not
+            # decide whether the message is accepted — no guard, and a body that does nothing but go on
+            ok = bool(arms) and all(a.guard is None and X.ntext(a.node["body"]) in ("continue", "{continue}", "{}", "()") for a in arms)
+            chk.instance("C13/R3", "%s skips Event::%s at document level, unconditionally" % (lp.label(), kind), lp.fn,
+                         loc_of((arms or [lp])[0].sp), holds=ok, key="C13/R3 %s %s-not-skipped" % (lp.label(), kind),
+                         detail=None if ok else "the Decl arm is missing, guarded, or inspects the declaration: acceptance then depends on how "
+                         "(or whether) the XML declaration is spelled")
     chk.floor("C13/R3 document-level loops", n, 2)
 
 
